@@ -163,6 +163,7 @@ CONSTANT OutSub <- MCOutSub
 CONSTANT RecChoices <- BothB
 CONSTANT AutoChoices <- BothB
 CONSTANT SepChoices <- {seps}
+CONSTANT LinkNames <- MCLinkNames
 CONSTANT MaxWalkDepth = 6
 INIT Init
 NEXT Next
@@ -209,6 +210,11 @@ def walk_property(run):
     walkh.replay(run, pid, res.lines.get("BEH", []), run.seed, limit=6000 if q else 60000)
     if pid == "C14":
         walkh.two_inputs_case(run)
+        # the walk as it was before the repair of F17 (linked directories stay in the toctree) violates C14_NoDangling
+        res0 = lib.run_tlc("MC_Walk", walk_cfg(pid, "BeforeF17", "SmallTrees", "SmallPatternSets", outs, seps, emit=False).replace(
+            "\n".join("INVARIANT " + i for i in WALK_INVS["C14"]), "INVARIANT C14_NoDangling"), want_violation=True, coverage=False)
+        if not res0.violated:
+            raise lib.MachineryError("Walk.tla: D_LinkedDirsListed no longer violates C14_NoDangling")
     if pid == "C15":
         walkh.script_entry_case(run)
     # binding B: recorded walks over random trees (deeper, more names and patterns than the menus), validated by TLC
